@@ -65,6 +65,10 @@ def cases(tier):
                     if tgt == 'excel_eam_fs' and route == 'proc':
                         route = 'cls'
                     out.append(dict(m=m, route=route, target=tgt))
+    for m in EK.big_models(True, tier):
+        for ti, tgt in enumerate(TARGETS):
+            for route in ('cls', 'cfg', 'potable') + (('proc',) if tgt != 'excel_eam_fs' else ()):
+                out.append(dict(m=m, route=route, target=tgt))
     # under-specified: species that appear only as neighbour (to-only) or only as centre (from-only) of a density entry
     for els in EK.ordered_subsets(EK.UNIVERSE, (2, 3)):
         for ne in range(1, len(els)):
